@@ -399,8 +399,28 @@ func Inject(t *rapid.T, in Input, k int, allowed func(InjClass) bool) ([]byte, [
 	n := rapid.IntRange(1, k).Draw(t, "ninject")
 	ins := map[int]string{}
 	var used []InjClass
+	// clustered placement: all comments within a dozen tokens of one place (several comments inside
+	// one small construct, e.g. a one-line function body)
+	cluster := -1
+	if rapid.IntRange(0, 3).Draw(t, "cluster") == 0 {
+		cluster = rapid.IntRange(0, len(real)).Draw(t, "clusterat")
+	}
+	// the text after the number: comment sizes matter to the printer (a body that is "small enough"
+	// is kept on one line, and the size of its comments counts)
+	filler := func() string {
+		switch rapid.IntRange(0, 5).Draw(t, "len") {
+		case 0:
+			return " " + strings.Repeat("medium text ", rapid.IntRange(1, 3).Draw(t, "rep"))
+		case 1:
+			return " " + strings.Repeat("a long comment text ", rapid.IntRange(3, 7).Draw(t, "rep"))
+		}
+		return ""
+	}
 	for i := 0; i < n; i++ {
 		j := rapid.IntRange(0, len(real)).Draw(t, "boundary") // before real[j]; len = after the last token
+		if cluster >= 0 {
+			j = min(len(real), cluster+j%12)
+		}
 		prev, next := "BOF", "EOF"
 		off := len(in.Src)
 		if j < len(real) {
@@ -423,12 +443,15 @@ func Inject(t *rapid.T, in Input, k int, allowed func(InjClass) bool) ([]byte, [
 		id := len(ins) + 1
 		switch style {
 		case "/*":
-			ins[off] = fmt.Sprintf("/*k%d*/", id)
+			ins[off] = fmt.Sprintf("/*k%d%s*/", id, filler())
+			if rapid.IntRange(0, 7).Draw(t, "multiline") == 0 {
+				ins[off] = fmt.Sprintf("/*k%d\n second line */", id)
+			}
 			if rapid.Bool().Draw(t, "pad") {
 				ins[off] = " " + ins[off] + " "
 			}
 		case "//":
-			ins[off] = fmt.Sprintf(" //k%d\n", id)
+			ins[off] = fmt.Sprintf(" //k%d%s\n", id, strings.TrimRight(filler(), " "))
 		default:
 			ins[off] = fmt.Sprintf(" # k%d\n", id)
 			if rapid.IntRange(0, 5).Draw(t, "bare") == 0 {
